@@ -29,6 +29,8 @@ pub struct LibOpts {
     pub profile: Profile,
     pub self_links: bool,
     pub dangling: bool,
+    /// destinations that are neither notes nor web addresses: attachments, anchors, queries, other schemes, absolute paths
+    pub foreign: bool,
     /// internal links inside paragraphs (false: only block references are internal)
     pub inline_internal: bool,
     /// some notes share identical blocks (same line text in several notes)
@@ -48,6 +50,7 @@ impl LibOpts {
             profile: Profile::clean(vec![]),
             self_links: true,
             dangling: true,
+            foreign: false,
             inline_internal: true,
             shared_blocks: true,
         }
@@ -124,6 +127,16 @@ fn targets_for(from: &str, keys: &[String], o: &LibOpts, rng: &mut Rng) -> (Vec<
             dest: e.to_string(),
             external: true,
         });
+    }
+    if o.foreign {
+        for e in ["zotero://select/items/A1", "file:///home/me/scan.pdf", "/assets/handbook.pdf", "tel:+123", "ftp://host/file"] {
+            inline_targets.push(Target { dest: e.to_string(), external: true });
+        }
+        if o.inline_internal && (o.cross_dir_inline || dir.is_empty()) {
+            for e in ["files/paper.pdf", "#summary", "page?x=1", "other.md#details", "files/data.v2.xlsx"] {
+                inline_targets.push(Target { dest: e.to_string(), external: false });
+            }
+        }
     }
     (inline_targets, block_targets)
 }
